@@ -245,4 +245,7 @@ class ClassicallyControlledOperation(raw_types.Operation):
             # Nothing to condition (e.g. a global phase).
             return subop_qasm
         condition_qasm = " && ".join(protocols.qasm(c, args=args) for c in self._conditions)
-        return f'if ({condition_qasm}) {subop_qasm}'
+        # The condition covers one statement only: repeat it for every statement of the body.
+        return ''.join(
+            f'if ({condition_qasm}) {statement}' for statement in subop_qasm.splitlines(keepends=True)
+        )
